@@ -46,6 +46,18 @@ def b2cAux : Line → Nat → Nat → Nat
 def b2c (l : Line) (idx : Nat) : Option Nat :=
   if isAscii l then some idx else if idx ≤ byteLen l then some (b2cAux l 0 idx) else none
 
+/-- `fst_core._params_offset(lines, put_lines, ln, col, end_ln, end_col)` on the text itself: the byte position and
+deltas handed to `_offset()` after a source put.  `col_offset` is the (negated) BYTE column of the end of the replaced
+span on ITS line `end_ln`; for a one-line put the new byte column adds the bytes of the put text and the bytes of the
+prefix before the span on the START line `ln`. -/
+def paramsOffsetC (lines putLines : List Line) (ln col endLn endCol : Nat) : Nat × Int × Int × Int :=
+  let dfst : Int := (putLines.length : Int) - 1
+  let dln : Int := dfst - ((endLn : Int) - (ln : Int))
+  let colOffset : Int := -((c2bRaw (lines.getD endLn []) endCol : Nat) : Int)
+  let dcol : Int := ((byteLen (putLines.getLastD []) : Nat) : Int) + colOffset
+  let dcol : Int := if dfst == 0 then dcol + ((c2bRaw (lines.getD ln []) col : Nat) : Int) else dcol
+  (endLn, colOffset, dln, dcol)
+
 /-! ## the regexes -/
 
 /-- `\s` of a `str` pattern (`Py_UNICODE_ISSPACE`). -/
